@@ -45,12 +45,13 @@ from vf.util import short
 META = {
     "level": "exploration",
     "rule": ("case = one history: a freshly built class family (Base/Sub/SubSub x with/without static "
-             "handlers; 26 declared traits covering constant, Any([])/Any({}) copies, List/Dict/Set "
+             "handlers; 30 declared traits covering constant, Any([])/Any({}) copies, List/Dict/Set "
              "objects, Instance(X,()) / Instance(X,args,kw), Any(factory=...) with and without args, "
              "_x_default methods (list/int/dict), Tuple(List(Int),Int) and Union(List(Int),Int) dynamic "
              "defaults, Tuple/Union with legacy list/dict-copy members (Tuple(list,int), Tuple(Any([..]),Int), "
              "Tuple(dict,str), Tuple(Trait([..],list),Int), Union(Trait(dict),None), Union(Any([..]),Int)), "
-             "comparison_mode none/identity variants, subclass overrides by class-body value and "
+             "List/Dict traits with non-empty static defaults whose items are containers (List(List(Int)), "
+             "List(Dict), Dict(Str,List), List(Set)), comparison_mode none/identity variants, subclass overrides by class-body value and "
              "by _x_default), a pool of 2-6 "
              "instances of 1-3 of the classes created at different times (half of them with "
              "on_trait_change/observe recorders attached), 15 (quick) / 15-25 (thorough) steps drawn from "
@@ -58,7 +59,10 @@ META = {
              "add_trait (new name / shadowing a declared name), remove_trait, new instance, drop "
              "instance, read-all, metadata-filtered query / state / copy (traits(**md), trait_names(**md), "
              "trait_get(**md), __getstate__, copy, deepcopy, clone_traits, copyable_trait_names, "
-             "editable_traits, visible_traits)}, one evaluation per inspected sibling / fresh instance / class after "
+             "editable_traits, visible_traits), transfer (assign the container value(s) read from a sibling "
+             "to the same trait(s) of the target, by setattr or trait_set(**sibling.trait_get(..)))}; 40% of "
+             "the families have value-based __eq__/__hash__ (distinct instances usually compare equal); "
+             "in-place mutations reach containers nested in containers, one evaluation per inspected sibling / fresh instance / class after "
              "every step.  distinct_nontrivial counts distinct (op, default kind of the target, value "
              "materialised before?, class of the target, static variant, recorders attached to the "
              "target, mechanisms that fired) signatures of steps."),
@@ -68,23 +72,25 @@ META = {
                   "fresh_instances": 40000, "class_inspections": 40000, "first_reads": 800000,
                   "pool_first_reads": 50000, "first_reads_static": 500000, "first_reads_otc": 400000,
                   "first_reads_observe": 400000, "later_reads": 15000, "default_method_runs": 200000,
-                  "default_factory_runs": 100000, "own_mutations": 3000,
+                  "default_factory_runs": 100000, "own_mutations": 2500,
                   "handler_events_on_target": 4000, "liveness_events": 100000, "add_trait_ops": 1500,
-                  "remove_trait_ops": 300, "registrations": 100000, "instances_created": 800,
+                  "remove_trait_ops": 250, "registrations": 100000, "instances_created": 800,
                   "sharing_comparisons": 800000, "query_ops": 1500,
                   "query_ops_on_instance_with_added_traits": 300, "filtered_inspections": 40000,
-                  "subclass_probes": 6000},
+                  "subclass_probes": 6000, "inner_mutations": 600, "transfer_ops": 1000,
+                  "transfer_ops_between_equal_instances": 200, "value_equality_histories": 400},
         "thorough": {"evaluations": 2000000, "steps": 300000, "sibling_inspections": 600000,
                      "fresh_instances": 800000, "class_inspections": 800000, "first_reads": 16000000,
                      "pool_first_reads": 1000000, "first_reads_static": 10000000,
                      "first_reads_otc": 8000000, "first_reads_observe": 8000000, "later_reads": 300000,
                      "default_method_runs": 4000000, "default_factory_runs": 2000000,
-                     "own_mutations": 60000, "handler_events_on_target": 80000,
-                     "liveness_events": 2000000, "add_trait_ops": 30000, "remove_trait_ops": 6000,
+                     "own_mutations": 50000, "handler_events_on_target": 80000,
+                     "liveness_events": 2000000, "add_trait_ops": 30000, "remove_trait_ops": 5000,
                      "registrations": 2000000, "instances_created": 16000,
                      "sharing_comparisons": 16000000, "query_ops": 30000,
                      "query_ops_on_instance_with_added_traits": 6000, "filtered_inspections": 800000,
-                     "subclass_probes": 120000},
+                     "subclass_probes": 120000, "inner_mutations": 12000, "transfer_ops": 20000,
+                     "transfer_ops_between_equal_instances": 4000, "value_equality_histories": 8000},
     },
     "assumptions": [
         "the declared default of every trait of the harness classes is the literal written in SPEC "
@@ -236,6 +242,12 @@ BASE_SPEC = {
     "tt":    ("tuple-legacy-trait-list", "tuple", ([1, 2], 0), None, "tup"),
     "ud":    ("union-legacy-dict", "dict", {}, None, "dictnone"),
     "ua2":   ("union-legacy-any-list", "list", [4, 5], None, "union"),
+    # non-empty static defaults whose ITEMS are containers: the item validator is what creates
+    # the per-instance inner TraitListObject / TraitDictObject / TraitSetObject
+    "ll":    ("trait-list-of-lists", "TraitListObject", [[1, 2], [3]], None, "listlist"),
+    "ld":    ("trait-list-of-dicts", "TraitListObject", [{"a": 1}], None, "listdict"),
+    "dl":    ("trait-dict-of-lists", "TraitDictObject", {"k": [1]}, None, "dictlist"),
+    "ls":    ("trait-list-of-sets", "TraitListObject", [{1}], None, "listset"),
     # comparison_mode none / identity: the Uninitialized filter is the only guard of a default read
     "cmn":   ("trait-list-cmp-none", "TraitListObject", [6], None, "list"),
     "cmi":   ("constant-cmp-identity-int", "int", 6, None, "int"),
@@ -300,8 +312,10 @@ def extra_def(name, k):
 ADDABLE = ("extra0", "extra1", "extra2", "extra0", "extra1", "c", "l", "dyn")
 
 
-def build(static):
-    """A fresh class family; handlers and default methods report to HUB."""
+def build(static, valeq=False):
+    """A fresh class family; handlers and default methods report to HUB.
+    valeq: the classes have value semantics (`__eq__` / `__hash__` over the stored
+    values of `c` and `st`), so two distinct instances usually compare equal."""
     hub = HUB
     with warnings.catch_warnings():
         warnings.simplefilter("ignore")
@@ -330,6 +344,10 @@ def build(static):
             tt = Tuple(Trait([1, 2], list), Int)
             ud = Union(Trait(dict), None)
             ua2 = Union(Any([4, 5]), Int)
+            ll = List(List(Int), [[1, 2], [3]])
+            ld = List(Dict(Str, Int), [{"a": 1}])
+            dl = Dict(Str, List(Int), {"k": [1]})
+            ls = List(Set(Int), [{1}])
             cmn = List(Int, [6], comparison_mode=ComparisonMode.none)
             cmi = Int(6, comparison_mode=ComparisonMode.identity)
             cmd = Any(comparison_mode=ComparisonMode.none)
@@ -349,6 +367,20 @@ def build(static):
             def _dobj_default(self):
                 hub.dcall(self, "dobj")
                 return {"m": 1}
+
+            if valeq:
+                def __eq__(self, other):
+                    if type(self) is not type(other):
+                        return NotImplemented
+                    a, b = self.__dict__, other.__dict__
+                    return a.get("c", ABSENT) == b.get("c", ABSENT) and a.get("st", ABSENT) == b.get("st", ABSENT)
+
+                def __ne__(self, other):
+                    r = self.__eq__(other)
+                    return r if r is NotImplemented else not r
+
+                def __hash__(self):
+                    return hash(type(self).__name__)
 
             if static:
                 def _anytrait_changed(self, name, old, new):
@@ -423,6 +455,14 @@ def gen_value(rng, vtype):
         return Foo(z=rng.randrange(100))
     if vtype == "tup":
         return (ints(3), rng.randrange(10))
+    if vtype == "listlist":
+        return [ints(3) for _ in range(rng.randrange(3))]
+    if vtype == "listdict":
+        return [{"k%d" % rng.randrange(4): rng.randrange(10)} for _ in range(rng.randrange(3))]
+    if vtype == "listset":
+        return [set(ints(3)) for _ in range(rng.randrange(3))]
+    if vtype == "dictlist":
+        return {"k%d" % rng.randrange(3): ints(3) for _ in range(rng.randrange(3))}
     if vtype == "tupd":
         return ({"k%d" % rng.randrange(4): rng.randrange(10) for _ in range(rng.randrange(3))},
                 rng.choice(["", "a", "xyz"]))
@@ -435,7 +475,25 @@ def gen_value(rng, vtype):
     raise AssertionError(vtype)
 
 
-def pick_mutation(rng, cur):
+NESTED = {"listlist": list, "listdict": dict, "listset": set}
+
+
+def pick_mutation(rng, cur, vt=None):
+    if vt in NESTED and isinstance(cur, list):
+        # a list of containers: mutate an INNER container in place, or grow / shrink the list
+        x = rng.random()
+        if cur and x < 0.65:
+            i = rng.randrange(len(cur))
+            return ("inner", i, pick_mutation(rng, cur[i]))
+        if cur and x < 0.8:
+            return ("pop",)
+        k = rng.randrange(100, 200)
+        return ("appendv", [k] if vt == "listlist" else {"z": k} if vt == "listdict" else {k})
+    if vt == "dictlist" and isinstance(cur, dict):
+        if cur and rng.random() < 0.7:
+            key = sorted(cur)[rng.randrange(len(cur))]
+            return ("inner", key, pick_mutation(rng, cur[key]))
+        return ("dsetv", "k%d" % rng.randrange(3), [rng.randrange(100, 200)])
     if isinstance(cur, list):
         c = rng.randrange(4)
         if c <= 1 or not cur:
@@ -474,6 +532,12 @@ def apply_real(v, m):
         v[0][m[1]] = m[2]
     elif k == "fooz":
         v.z = m[1]
+    elif k == "inner":
+        apply_real(v[m[1]], m[2])
+    elif k == "appendv":
+        v.append(copy.deepcopy(m[1]))
+    elif k == "dsetv":
+        v[m[1]] = copy.deepcopy(m[2])
     else:
         raise AssertionError(m)
 
@@ -500,6 +564,16 @@ def apply_model(p, m):
         return (q,) + tuple(p[1:])
     if k == "fooz":
         return ("Foo", m[1])
+    if k == "inner":
+        q = list(p) if isinstance(p, list) else dict(p)
+        q[m[1]] = apply_model(q[m[1]], m[2])
+        return q
+    if k == "appendv":
+        return p + [copy.deepcopy(m[1])]
+    if k == "dsetv":
+        q = dict(p)
+        q[m[1]] = copy.deepcopy(m[2])
+        return q
     raise AssertionError(m)
 
 
@@ -516,13 +590,27 @@ def ncount(ct):
         return None
 
 
-def mutable_parts(v):
-    """Objects of a default value whose identity must not be shared."""
+def mutable_parts(v, out=None):
+    """Every mutable object of a value (the value itself and, recursively, the
+    containers nested in it) whose identity must not be shared."""
+    if out is None:
+        out = []
+    if v is None or isinstance(v, (int, str)):
+        return out
     if isinstance(v, tuple):
-        return [x for x in v if not isinstance(x, (int, str))]
-    if isinstance(v, (int, str)):
-        return []
-    return [v]
+        for x in v:
+            mutable_parts(x, out)
+    elif isinstance(v, list):
+        out.append(v)
+        for x in v:
+            mutable_parts(x, out)
+    elif isinstance(v, dict):
+        out.append(v)
+        for x in v.values():
+            mutable_parts(x, out)
+    else:
+        out.append(v)
+    return out
 
 
 def _is_none(v):
@@ -545,6 +633,9 @@ QUERIES = {
     "visible_traits": lambda o: o.visible_traits(),
 }
 QUERY_NAMES = sorted(QUERIES)
+
+# traits that copy an assigned container into a container of the receiving instance
+TRANSFER_NAMES = ("l", "li", "d", "s", "dyn", "cmn", "ll", "ld", "dl", "ls", "un", "tup")
 
 
 class Rec:
@@ -583,7 +674,8 @@ class History:
 
     # -- reporting -----------------------------------------------------------
     def fail(self, key, msg, **extra):
-        w = {"history": self.hid, "static": self.static, "classes": list(self.use),
+        w = {"history": self.hid, "static": self.static, "value_equality": getattr(self, "valeq", None),
+             "classes": list(self.use),
              "trace": self.trace[-40:], "log": HUB.log[:8],
              "pool": [(r.serial, r.cname, sorted(r.extras)) for r in self.pool]}
         w.update(extra)
@@ -601,7 +693,7 @@ class History:
         HUB.bind(obj, serial)
         return serial, obj
 
-    def new_rec(self, cname, kwargs=None, attach=False):
+    def new_rec(self, cname, kwargs=None, attach=False, readonly=False):
         rng = self.rng
         vals = {}
         for n, vt in (kwargs or {}).items():
@@ -612,7 +704,10 @@ class History:
         r.serial, r.obj, r.cname = serial, obj, cname
         r.cspec = SPECS[cname]
         r.dflt = dict(r.cspec)
-        r.model = {n: copy.deepcopy(r.cspec[n][2]) for n in NAMES}
+        if readonly:            # a fresh instance: its model is only ever compared
+            r.model = {n: r.cspec[n][2] for n in NAMES}
+        else:
+            r.model = {n: copy.deepcopy(r.cspec[n][2]) for n in NAMES}
         r.model.update(plain)
         r.extras = {}
         r.regs = []
@@ -821,6 +916,7 @@ class History:
                 self.fail("later-read/default-recomputed/%s" % family(kind),
                           "#%d.%s: default method/factory ran on a later read" % (r.serial, n), name=n)
             ctx.count("later_reads")
+            self._first_read = False
             return v
         # first read of this epoch
         if type(v).__name__ != tname or norm(v) != r.model[n]:
@@ -851,6 +947,7 @@ class History:
         if len(HUB.log) != nlog:
             self.fail("later-read/not-silent/%s" % HUB.log[nlog][0],
                       "second read of #%d.%s reached a handler: %r" % (r.serial, n, HUB.log[nlog]), name=n)
+        self._first_read = True
         ctx.count("first_reads")
         if where != "fresh":
             ctx.count("pool_first_reads")
@@ -874,7 +971,7 @@ class History:
         rng = self.rng
         step_op = self.op
         del HUB.log[:]
-        r = self.new_rec(cname)
+        r = self.new_rec(cname, readonly=True)
         where = "fresh"
         try:
             if HUB.log:
@@ -915,13 +1012,16 @@ class History:
             order = list(NAMES)
             rng.shuffle(order)
             got = {}
+            stored_before = set()       # read through the "already stored" path: default not yet judged
             for n in order:
                 got[n] = self.checked_read(r, n, where)
+                if not self._first_read:
+                    stored_before.add(n)
             # sharing: with the pool, the previous fresh instance, the class trait
             prev = self.prev_fresh.get(cname, {})
             for n in NAMES:
                 kind, tname, plain = r.cspec[n][:3]
-                if type(got[n]).__name__ != tname or norm(got[n]) != plain:
+                if n in stored_before and (type(got[n]).__name__ != tname or norm(got[n]) != plain):
                     self.fail("default-read/wrong-default/%s" % kind,
                               "fresh %s().%s is %s %s, declared default is %s %s"
                               % (cname, n, type(got[n]).__name__, brief(got[n]), tname, short(plain, 60)),
@@ -931,29 +1031,32 @@ class History:
                 parts = mutable_parts(got[n])
                 stored_default = self.ctraits[cname][n].default_value()[1]
                 stored_parts = [stored_default]
-                if isinstance(stored_default, tuple) and not (stored_default and callable(stored_default[0])):
-                    # a constant tuple default: its members (not a (callable, args, kw) triple)
+                if not (isinstance(stored_default, tuple) and stored_default and callable(stored_default[0])):
+                    # the members of the stored default too (not of a (callable, args, kw) triple)
                     stored_parts += mutable_parts(stored_default)
-                for p in parts:
-                    if any(p is q for q in stored_parts):
-                        self.fail("shared-default/with-class-trait/%s" % family(kind),
-                                  "fresh %s().%s IS the object stored in the class trait" % (cname, n), name=n)
-                    for q in mutable_parts(prev.get(n, ())) if n in prev else ():
-                        ctx.count("sharing_comparisons")
-                        if p is q:
-                            self.fail("shared-default/between-instances/%s" % family(kind),
-                                      "two fresh %s() instances share the default object of %r" % (cname, n),
-                                      name=n)
-                    for other in self.pool:
-                        ov = other.obj.__dict__.get(n, ABSENT)
-                        if ov is ABSENT:
-                            continue
-                        for q in mutable_parts(ov):
-                            ctx.count("sharing_comparisons")
-                            if p is q:
-                                self.fail("shared-default/between-instances/%s" % family(kind),
-                                          "fresh %s().%s is the same object as #%d.%s"
-                                          % (cname, n, other.serial, n), name=n, sibling=other.serial)
+                if not parts:
+                    continue
+                mine = set(map(id, parts))          # all of these objects are alive right now
+                if any(id(q) in mine for q in stored_parts):
+                    self.fail("shared-default/with-class-trait/%s" % family(kind),
+                              "fresh %s().%s IS the object stored in the class trait" % (cname, n), name=n)
+                if n in prev:
+                    theirs = mutable_parts(prev[n])
+                    ctx.count("sharing_comparisons", len(theirs) * len(parts))
+                    if any(id(q) in mine for q in theirs):
+                        self.fail("shared-default/between-instances/%s" % family(kind),
+                                  "two fresh %s() instances share the default object of %r" % (cname, n),
+                                  name=n)
+                for other in self.pool:
+                    ov = other.obj.__dict__.get(n, ABSENT)
+                    if ov is ABSENT:
+                        continue
+                    theirs = mutable_parts(ov)
+                    ctx.count("sharing_comparisons", len(theirs) * len(parts))
+                    if any(id(q) in mine for q in theirs):
+                        self.fail("shared-default/between-instances/%s" % family(kind),
+                                  "fresh %s().%s is the same object as #%d.%s"
+                                  % (cname, n, other.serial, n), name=n, sibling=other.serial)
             self.prev_fresh[cname] = got
             if attach:
                 # liveness of the recorders (evidence only) and ownership of what fires
@@ -985,7 +1088,7 @@ class History:
         for r in self.pool:
             self.inspect_other(r)
         for cname in self.family:
-            self.class_check(cname)
+            self.class_check(cname, light=True)
         # metadata-filtered views of every pool instance: the class's names plus the
         # instance's own added traits, whatever any other instance did or asked
         self.op = "filtered-inspection"
@@ -1004,7 +1107,7 @@ class History:
             self.ctx.ev()
             self.ctx.count("filtered_inspections")
         for cname in self.family:
-            self.class_check(cname)
+            self.class_check(cname, light=True)
         # a subclass defined now inherits exactly the classes' original traits
         if step_op in ("query", "add_trait", "remove_trait") or self.rng.random() < 0.2:
             self.op = step_op
@@ -1026,12 +1129,14 @@ class History:
         self.ctx.count("subclass_probes")
 
     # -- classes ---------------------------------------------------------------------
-    def class_check(self, cname, baseline=False):
+    def class_check(self, cname, baseline=False, light=False):
+        """light: everything but the deep comparison of the declared defaults (that one
+        runs once per step, in the pass attributed to the step's own operation)."""
         cls = self.classes[cname]
         ct = cls.class_traits()
         ids = {n: t for n, t in ct.items()}
         vs = set(k for k in vars(cls) if not k.startswith("_"))
-        cdv = {n: dvnorm(t) for n, t in self.ctraits[cname].items()}
+        cdv = self.cdv0[cname] if light else {n: dvnorm(t) for n, t in self.ctraits[cname].items()}
         cen = {n: ncount(t) for n, t in self.ctraits[cname].items()}
         raw = getattr(cls, "__class_traits__", None)
         ckeys = sorted(raw) if isinstance(raw, dict) else None
@@ -1079,7 +1184,7 @@ class History:
         rng = self.rng
         ops = (("read", 3), ("mutate", 5), ("assign", 3), ("del", 2), ("otc", 2), ("observe", 2),
                ("unregister", 1), ("add_trait", 2.5), ("remove_trait", 1.2), ("new", 1.5),
-               ("drop", 0.4), ("readall", 0.5), ("query", 2.5))
+               ("drop", 0.4), ("readall", 0.5), ("query", 2.5), ("transfer", 2.0))
         tot = sum(w for _, w in ops)
         x = rng.random() * tot
         for name, w in ops:
@@ -1171,15 +1276,22 @@ class History:
             elif op == "mutate":
                 cands = [n for n in names
                          if (A.dflt[n][1] not in IMMUTABLE_TYPES and n not in o.__dict__)
-                         or pick_mutation(rng_null, o.__dict__.get(n, None)) is not None]
+                         or pick_mutation(rng_null, o.__dict__.get(n, None), A.dflt[n][4]) is not None]
                 n = rng.choice(cands)
+                if rng.random() < 0.25:
+                    # a quarter of the mutations go to containers of containers
+                    nested = [x for x in cands if A.dflt[x][4] in NESTED or A.dflt[x][4] == "dictlist"]
+                    if nested:
+                        n = rng.choice(nested)
                 self.op = op
                 kind = A.dflt[n][0]
                 present = n in o.__dict__
                 self.trace.append((op, A.serial, n))
                 v = self.checked_read(A, n, "first-read")
-                m = pick_mutation(rng, v)
+                m = pick_mutation(rng, v, A.dflt[n][4])
                 self.trace[-1] = (op, A.serial, n, m)
+                if m[0] == "inner":
+                    ctx.count("inner_mutations")
                 try:
                     apply_real(v, m)
                 except Exception as e:
@@ -1282,6 +1394,53 @@ class History:
                     first = (reg[1] or "").replace("[]", "").replace(":", ".").replace("?", "").split(".")[0]
                     self.check_counters(A, (first,), epoch=True)
                     sigparts = (op, reg[0], reg[1], detail)
+            elif op == "transfer":
+                # A receives the container value(s) read from a sibling S for the same trait(s):
+                # a container trait copies what it is given, so A gets containers of its own
+                self.op = op
+                others = [r for r in self.pool if r is not A]
+                same = [r for r in others if r.cname == A.cname]
+                S = rng.choice(same if same and rng.random() < 0.7 else others)
+                bulk = rng.random() < 0.3
+                ns = rng.sample(TRANSFER_NAMES, rng.randint(2, 4)) if bulk else [rng.choice(TRANSFER_NAMES)]
+                self.trace.append((op, A.serial, "from", S.serial, ns, "trait_set" if bulk else "setattr"))
+                kind = A.dflt[ns[0]][0]
+                present = ns[0] in o.__dict__
+                nlog = len(HUB.log)
+                vals = {n: self.checked_read(S, n, "first-read") for n in ns}
+                if len(HUB.log) != nlog:
+                    self.fail("default-read/not-silent/%s" % HUB.log[nlog][0], "reading #%d reached %r"
+                              % (S.serial, HUB.log[nlog]))
+                try:
+                    equal = bool(o == S.obj)
+                except Exception:
+                    equal = False
+                absent = tuple(n for n in ns if n not in o.__dict__)
+                self.guard_counters(A)
+                try:
+                    if bulk:
+                        o.trait_set(**S.obj.trait_get(*ns))
+                    else:
+                        setattr(o, ns[0], vals[ns[0]])
+                except Exception as e:
+                    self.fail("op-raised/transfer/%s/%s" % (family(kind), type(e).__name__),
+                              "assigning #%d.%s to #%d raised %r" % (S.serial, ns, A.serial, e))
+                for n in ns:
+                    A.model[n] = copy.deepcopy(S.model[n])
+                self.check_counters(A, absent, epoch=True)
+                for n in ns:
+                    mine = o.__dict__.get(n, ABSENT)
+                    theirs = S.obj.__dict__.get(n, ABSENT)
+                    for p in mutable_parts(mine) if mine is not ABSENT else ():
+                        ctx.count("sharing_comparisons")
+                        if any(p is q for q in mutable_parts(theirs)):
+                            self.fail("shared-value/after-assigning-sibling-container/%s" % family(A.dflt[n][0]),
+                                      "after #%d.%s = #%d.%s the two instances hold the same %s object"
+                                      % (A.serial, n, S.serial, n, type(p).__name__), name=n, sibling=S.serial)
+                ctx.count("transfer_ops")
+                if equal:
+                    ctx.count("transfer_ops_between_equal_instances")
+                sigparts = (op, kind, present, bulk, equal, S.cname == A.cname)
             elif op == "query":
                 self.op = op
                 q = rng.choice(QUERY_NAMES)
@@ -1387,7 +1546,7 @@ class History:
             regm = tuple(sorted(set(x[0] for x in A.regs)))
             sigparts = sigparts + (A.cname, regm, tuple(sorted(mechs)))
         ctx.count("steps")
-        ctx.sig(self.static, *sigparts)
+        ctx.sig(self.static, self.valeq, *sigparts)
         # classes, fresh instances, siblings again
         self.after_step()
 
@@ -1420,7 +1579,10 @@ class History:
         rng = self.rng
         HUB.reset()
         self.static = rng.random() < 0.6
-        self.classes = build(self.static)
+        self.valeq = rng.random() < 0.4
+        if self.valeq:
+            self.ctx.count("value_equality_histories")
+        self.classes = build(self.static, self.valeq)
         self.use = rng.choice([("Base",), ("Sub",), ("Base", "Sub"), ("Sub", "SubSub"),
                                ("Base", "Sub", "SubSub"), ("Base", "SubSub")])
         # fresh instances of every class of the family are checked, also of the
@@ -1458,6 +1620,9 @@ class _NullRng:
 
     def randrange(self, *a):
         return 0
+
+    def random(self):
+        return 0.99
 
 
 rng_null = _NullRng()
